@@ -393,6 +393,14 @@ def Channel.checkCapability (c : Channel) (cap : Str) : R Bool :=
     | .ok true => CapSet.check c.caps cap
     | .ok false => .ok (if isAntiCapability cap then !c.defaultAllow else c.defaultAllow)
 
+/-- the channel record's say on `c` (the part of the capability after `#channel,`):
+`if c in chan.capabilities: return chan._checkCapability(c)`, otherwise `_x(c, dflt)` -/
+def Channel.decide (chan : Channel) (c : Str) (dflt : Bool) : R Bool :=
+  match CapSet.contains chan.caps c with
+  | .error e => .error e
+  | .ok true => chan.checkCapability c
+  | .ok false => .ok (applyAnti c dflt)
+
 /-- global part of `_checkCapabilityForUnknownUser` -/
 def Db.globalsUnknown (db : Db) (cap : Str) (ignoreDefaultAllow : Bool) : R Bool :=
   match CapSet.contains db.defaults cap with
@@ -405,12 +413,7 @@ def Db.checkUnknown (db : Db) (cap : Str) (ignoreDefaultAllow : Bool) : R Bool :
   match chanSplit cap with
   | some (ch, c) =>
     let chan := db.getChannel ch
-    let r : R Bool :=
-      match CapSet.contains chan.caps c with
-      | .error e => .error e
-      | .ok true => chan.checkCapability c
-      | .ok false => .ok (applyAnti c (!ignoreDefaultAllow && chan.defaultAllow))
-    match r with
+    match chan.decide c (!ignoreDefaultAllow && chan.defaultAllow) with
     | .error .key => db.globalsUnknown c ignoreDefaultAllow     -- `except KeyError: pass`
     | r => r
   | none => db.globalsUnknown cap ignoreDefaultAllow
@@ -445,12 +448,8 @@ def Db.channelStage (db : Db) (u : User) (ch c : Str) (fl : Flags) : R Bool :=
   | .ok true => .ok (applyAnti c true)
   | .ok false =>
     let chan := db.getChannel ch
-    match CapSet.contains chan.caps c with
-    | .error e => .error e
-    | .ok true => chan.checkCapability c
-    | .ok false =>
-      if !fl.ignoreDefaultAllow then .ok (applyAnti c chan.defaultAllow)
-      else .ok (applyAnti c false)
+    -- `elif not ignoreDefaultAllow: return _x(c, chan.defaultAllow)  else: return _x(c, False)`
+    chan.decide c (if !fl.ignoreDefaultAllow then chan.defaultAllow else false)
 
 /-- global stage for a recognised user -/
 def Db.globalsKnown (db : Db) (cap : Str) (ignoreDefaultAllow : Bool) : R Bool :=
